@@ -94,6 +94,7 @@ def evaluate(patch, checks):
             res[ck] = {"exit": c, "line": line[:200], "reason": reason[:400], "wall_s": round(time.time() - t, 1)}
     finally:
         sh(f"git -C {VE_REPO} checkout -- .")
+        sh(f"git -C {VE_REPO} clean -fdq -e Cargo.lock -e target")
         # a change that renames a temporary over the destination can replace the /dev/full node (we run as root)
         sh("[ -c /dev/full ] || (rm -f /dev/full; mknod -m 666 /dev/full c 1 7)")
     return res
